@@ -1055,6 +1055,117 @@ example : (run ⟨true⟩ midProg { start := 1, stop := 2, n := 2, collectOn := 
     positionsOf isCollect (run ⟨true⟩ midProg { start := 1, stop := 2, n := 2, collectOn := false, fuel := 9 }
       { agents := [0, 1], next := 2 }).log = [(2, 1)] := by decide
 
+/-! ### wave 3: history independence — a call depends on the run specs in force, not on earlier calls -/
+
+theorem effSpec_good (h : SchedCfg) (hg : h.stepsFromSpecs = true) (sc : Sched) (sp : Spec) : effSpec h sc sp = sp := by
+  simp [effSpec, stepsUsed, hg]
+
+/-- with steps-per-round taken from the run specs in force, a call on a used scheduler does exactly what the
+same call does on a fresh scheduler holding the same population. -/
+theorem callOn_fresh (c : Cfg) (h : SchedCfg) (hg : h.stepsFromSpecs = true) (P : Prog) (sc : Sched) (call : SCall) :
+    (callOn c h P sc call).2 = freshCall c P sc.pop call ∧ (callOn c h P sc call).1.cache = none := by
+  cases call <;> simp [callOn, freshCall, effSpec_good h hg, cacheAfter, hg]
+
+def SCall.spec : SCall → Spec
+  | .run sp => sp
+  | .step sp _ _ => sp
+
+/-- every call of a history: (population it started from, its outcome). -/
+def outcomes (c : Cfg) (h : SchedCfg) (P : Prog) : Sched → List SCall → List (Pop × SCall × St)
+  | _, [] => []
+  | sc, call :: rest => (sc.pop, call, (callOn c h P sc call).2) :: outcomes c h P (callOn c h P sc call).1 rest
+
+theorem outcomes_fresh (c : Cfg) (h : SchedCfg) (hg : h.stepsFromSpecs = true) (P : Prog) :
+    ∀ (calls : List SCall) (sc : Sched), ∀ x ∈ outcomes c h P sc calls, x.2.2 = freshCall c P x.1 x.2.1 := by
+  intro calls
+  induction calls with
+  | nil => intro sc x hx; simp [outcomes] at hx
+  | cons call rest ih =>
+    intro sc x hx
+    simp only [outcomes, List.mem_cons] at hx
+    rcases hx with rfl | hx
+    · exact (callOn_fresh c h hg P sc call).1
+    · exact ih _ x hx
+
+theorem callOn_popOK (c : Cfg) (h : SchedCfg) (hg : h.stepsFromSpecs = true) (P : Prog) (sc : Sched) (call : SCall)
+    (hs : Safe c call.spec) (hn : 0 < call.spec.n) (hp : PopOK sc.pop) : PopOK (callOn c h P sc call).1.pop := by
+  cases call with
+  | run sp =>
+    simp only [callOn, effSpec_good h hg]
+    exact (runClauses_of_safe c P sp sc.pop hs hn hp).popOK
+  | step sp r s =>
+    simp only [callOn, effSpec_good h hg]
+    rw [(runStep_safe c P sp hs (St.init sc.pop) rfl r s).2.2.1]
+    exact (stepShape P sp sc.pop r s hp).popOK
+
+/-- The history part of the property: after ANY earlier runs / steps under other run specs (other dt, start,
+stop, collect switch), every whole run has all `RunClauses` **for the run specs in force** from the population
+it starts with, and every externally driven step is the step block of the specification. -/
+def C12_history (c : Cfg) (h : SchedCfg) : Prop :=
+  ∀ (P : Prog) (pop0 : Pop) (calls : List SCall), PopOK pop0 → (∀ call ∈ calls, 0 < call.spec.n) →
+    ∀ x ∈ outcomes c h P ⟨pop0, none⟩ calls,
+      x.2.2 = freshCall c P x.1 x.2.1 ∧ PopOK x.1 ∧
+      (∀ sp, x.2.1 = .run sp → RunClauses c P sp x.1) ∧
+      (∀ sp r s, x.2.1 = .step sp r s → x.2.2.crashed = false ∧ x.2.2.log = (stepOut P sp x.1 r s).events ∧
+        x.2.2.pop = (stepOut P sp x.1 r s).pop)
+
+theorem outcomes_popOK (c : Cfg) (hc : c.progressBySpan = true) (h : SchedCfg) (hg : h.stepsFromSpecs = true) (P : Prog) :
+    ∀ (calls : List SCall) (sc : Sched), PopOK sc.pop → (∀ call ∈ calls, 0 < call.spec.n) →
+      ∀ x ∈ outcomes c h P sc calls, PopOK x.1 := by
+  intro calls
+  induction calls with
+  | nil => intro sc _ _ x hx; simp [outcomes] at hx
+  | cons call rest ih =>
+    intro sc hp hn x hx
+    simp only [outcomes, List.mem_cons] at hx
+    rcases hx with rfl | hx
+    · exact hp
+    · exact ih _ (callOn_popOK c h hg P sc call (Or.inl hc) (hn call (by simp)) hp)
+        (fun q hq => hn q (by simp [hq])) x hx
+
+theorem mem_outcomes_call (c : Cfg) (h : SchedCfg) (P : Prog) : ∀ (calls : List SCall) (sc : Sched),
+    ∀ x ∈ outcomes c h P sc calls, x.2.1 ∈ calls := by
+  intro calls
+  induction calls with
+  | nil => intro sc x hx; simp [outcomes] at hx
+  | cons call rest ih =>
+    intro sc x hx
+    simp only [outcomes, List.mem_cons] at hx
+    rcases hx with rfl | hx
+    · simp
+    · exact List.mem_cons_of_mem _ (ih _ x hx)
+
+theorem C12_history_of_good (c : Cfg) (hc : c.progressBySpan = true) (h : SchedCfg) (hg : h.stepsFromSpecs = true) :
+    C12_history c h := by
+  intro P pop0 calls hp hn x hx
+  have hfresh := outcomes_fresh c h hg P calls ⟨pop0, none⟩ x hx
+  have hpop := outcomes_popOK c hc h hg P calls ⟨pop0, none⟩ hp hn x hx
+  have hcall := mem_outcomes_call c h P calls _ x hx
+  refine ⟨hfresh, hpop, ?_, ?_⟩
+  · intro sp hsp
+    have hpos : 0 < sp.n := by have := hn _ hcall; rw [hsp] at this; exact this
+    exact runClauses_of_safe c P sp x.1 (Or.inl hc) hpos hpop
+  · intro sp r s hsp
+    rw [hfresh, hsp]
+    obtain ⟨h1, h2, h3, _, _⟩ := runStep_safe c P sp (Or.inl hc) (St.init x.1) rfl r s
+    exact ⟨h1, by simpa [St.init, freshCall] using h2, by simpa [St.init, freshCall] using h3⟩
+
+/-- Negation witness for a cached steps-per-round: `run_specs(0,0,1)`, run, `run_specs(0,0,0.5)`, run — the second
+run executes one step instead of the two steps (0,0), (0,1) of its grid. -/
+theorem C12_history_witness (c : Cfg) (hc : c.progressBySpan = true) (h : SchedCfg) (hb : h.stepsFromSpecs = false) :
+    ¬ C12_history c h := by
+  intro hf
+  have hx := hf quietProg { agents := [0], next := 1 }
+    [.run { start := 0, stop := 0, n := 1, collectOn := true, fuel := 8 },
+     .run { start := 0, stop := 0, n := 2, collectOn := true, fuel := 8 }] popOK_one
+    (by intro call hc; simp at hc; rcases hc with rfl | rfl <;> decide)
+  cases c; simp only at hc; subst hc
+  cases h; simp only at hb; subst hb
+  have h2 := (hx _ (by simp [outcomes]; right; rfl)).1
+  have h3 := congrArg (fun st : St => (positionsOf isBegin st.log).length) h2
+  revert h3
+  decide
+
 /-- nested creation within the bound: agent 0 creates agent 2, agent 2 (created in this step) creates agent 3,
 agent 3 (id ≥ N = 3) creates nobody; `c = 1`.  The step ends with fuel `L + c·N = 2 + 3`. -/
 def nestedProg : Prog :=
@@ -1092,6 +1203,9 @@ example : Rounding 53 (-1074) := ⟨id, fun _ _ => rfl⟩
 #print axioms stepShape
 #print axioms grid_increasing
 #print axioms foldl_loopAct_frozen
+#print axioms C12_history_of_good
+#print axioms C12_history_witness
+#print axioms callOn_fresh
 #print axioms agentLoop_terminates
 #print axioms run_terminates
 #print axioms agentLoop_fuel_irrelevant
